@@ -384,3 +384,37 @@ def ref_forward(ins, con, acts, out_order, x_row, w, joint_softmax=True):
         return r
 
     return [value(o) for o in out_order]
+
+
+def exact_float_ok(ins, con, acts, x_row, w, limit=1 << 50):
+    """True when evaluating the net on this sample with these weights is exact in binary64 whatever the
+    summation order: every weighted sum, scaled to the common power-of-two denominator of its terms, has
+    sum of absolute numerators below 2^50 (only ReLU / identity nodes).  Used to keep the exact regime
+    free of rounding (deep random nets can exceed 53 bits)."""
+    from fractions import Fraction
+    amap = dict(acts)
+    into = {}
+    for i, (a, b) in enumerate(con):
+        into.setdefault(b, []).append((a, i))
+    memo = {}
+    ok = [True]
+
+    def value(v):
+        if v in memo:
+            return memo[v]
+        if v in ins:
+            r = Fraction(float(x_row[v]))
+        else:
+            terms = [Fraction(float(w[i])) * value(a) for a, i in into.get(v, [])]
+            den = max([t.denominator for t in terms] + [1])
+            if sum(abs(t.numerator) * (den // t.denominator) for t in terms) >= limit or den >= limit:
+                ok[0] = False
+            r = sum(terms, Fraction(0))
+            if amap.get(v) == 1 and r < 0:
+                r = Fraction(0)
+        memo[v] = r
+        return r
+
+    for v in set(amap) | set(ins):
+        value(v)
+    return ok[0]
